@@ -65,6 +65,10 @@ def _strip_comments(text):
     return "".join(out)
 
 
+IN_LAKE = [0]        # > 0 while this process waits for / runs lake (excluded from the wall-clock watchdog)
+LAKE_TIME = [0.0]
+
+
 def released():
     """which regenerated-from-source groups are part of the registered checks (harness/released.json)"""
     return json.load(open(os.path.join(VERIF, "harness", "released.json")))
@@ -118,6 +122,8 @@ def regen_all():
 def lake(args, timeout=3000):
     """run lake under a lock so that parallel checks do not race; Gen/ is regenerated from REPO under the same lock"""
     import fcntl
+    t_in = time.time()
+    IN_LAKE[0] += 1
     lock = open(os.path.join(LEAN, ".lake.lock"), "w")
     fcntl.flock(lock, fcntl.LOCK_EX)
     try:
@@ -128,6 +134,8 @@ def lake(args, timeout=3000):
     finally:
         fcntl.flock(lock, fcntl.LOCK_UN)
         lock.close()
+        IN_LAKE[0] -= 1
+        LAKE_TIME[0] += time.time() - t_in
     return p.returncode, p.stdout
 
 
@@ -565,9 +573,19 @@ def main(argv):
 
         def _on_budget(signum, frame):
             raise Hang("the exploration used more than %d s of processor time" % budget)
+        # wall-clock watchdog for threads of the code under test that block each other for ever (no CPU is used then);
+        # time spent waiting for the lake lock or building Lean is not counted
+        wall = float(os.environ.get("VERIF_WALL_BUDGET", "10800" if tier == "thorough" else "1500"))
+        t_start = time.time()
+
+        def _on_wall(signum, frame):
+            if IN_LAKE[0] == 0 and time.time() - t_start - LAKE_TIME[0] > wall:
+                raise Hang("the exploration did not finish within %d s (lake time excluded)" % wall)
         try:
             signal.signal(signal.SIGPROF, _on_budget)
             signal.setitimer(signal.ITIMER_PROF, budget, 20.0)     # and again every 20 s, should something swallow it
+            signal.signal(signal.SIGALRM, _on_wall)
+            signal.setitimer(signal.ITIMER_REAL, 30.0, 30.0)
         except (ValueError, OSError, AttributeError):     # not in the main thread / not available
             pass
         try:
@@ -583,6 +601,7 @@ def main(argv):
         except (Exception, Hang) as e:
             try:
                 signal.setitimer(signal.ITIMER_PROF, 0)
+                signal.setitimer(signal.ITIMER_REAL, 0)
             except Exception:
                 pass
             # The exploration itself died.  On the unchanged tree this never happens (every check is run with
@@ -610,6 +629,7 @@ def main(argv):
                         % (type(e).__name__, e), {"exception": repr(e), "frames": frames})
         try:
             signal.setitimer(signal.ITIMER_PROF, 0)
+            signal.setitimer(signal.ITIMER_REAL, 0)
         except Exception:
             pass
         return ck.finish()
